@@ -12,6 +12,7 @@ import PlatypusModel.Model.Survival
 import PlatypusModel.Model.Machine
 import PlatypusModel.Model.Parallel
 import PlatypusModel.Model.Indicators
+import PlatypusModel.Model.LinAlg
 open Wire Platypus
 
 namespace Ops
@@ -393,8 +394,32 @@ def opsIndicators (op : String) : Option (P String) :=
       pure (showFlt (spacing opsFloat set))
   | _ => none
 
+def showLErr : LErr → String
+  | .singular => "err:singular" | .zerodiv => "err:zerodiv" | .index => "err:index" | .unbound => "err:unbound"
+
+def opsLinAlg (op : String) : Option (P String) :=
+  match op with
+  | "lsolveF" => some do
+      let A ← list (list flt); let b ← list flt
+      pure (match lsolve EPSILON A b with
+        | .ok x => "x " ++ " ".intercalate (x.map showFlt)
+        | .error e => showLErr e)
+  | "lsolveQ" => some do
+      let A ← list (list rat); let b ← list rat
+      pure (match lsolve (mkRat 1 4503599627370496) A b with
+        | .ok x => "x " ++ " ".intercalate (x.map showRat)
+        | .error e => showLErr e)
+  | "eigenF" => some do
+      let fixed ← bool; let C ← list (list flt)
+      let n := C.length
+      pure (match FL.eigen fixed n (C.map List.toArray).toArray with
+        | .ok (d, V) => "d " ++ " ".intercalate (d.toList.map showFlt) ++ " V " ++
+            " ".intercalate (V.toList.flatMap fun r => r.toList.map showFlt)
+        | .error e => showLErr e)
+  | _ => none
+
 def dispatch (op : String) (args : List String) : Except String String :=
-  match (opsGray op <|> opsDominance op <|> opsConstraint op <|> opsEps op <|> opsSorting op <|> opsGrid op <|> opsRun op <|> opsSurvival op <|> opsMachine op <|> OpsOperators.opsOperators op <|> opsParallel op <|> opsIndicators op) with
+  match (opsGray op <|> opsDominance op <|> opsConstraint op <|> opsEps op <|> opsSorting op <|> opsGrid op <|> opsRun op <|> opsSurvival op <|> opsMachine op <|> OpsOperators.opsOperators op <|> opsParallel op <|> opsIndicators op <|> opsLinAlg op) with
   | some p => Wire.run p args
   | none => .error "bad-op"
 
